@@ -130,6 +130,38 @@ func runC01(t *testing.T, rep *mc.Reporter) {
 			}
 		})
 	}
+	// ---- database switches against mappings that are not one-to-one: an allowed source database mapped
+	// onto the number of the black-listed one, two source databases sharing a target database, one target
+	// database > 0 for everything; the stream's FIRST switch may be the black-listed database (no leading s0)
+	for _, dbm := range []string{"onto5", "merge", "all3"} {
+		dbm := dbm
+		enumSeqs([]string{"sb", "s1", "s0", "s2", "w1", "t2"}, 4, func(seq []string) {
+			if len(seq) < 2 || seq[0][0] != 's' {
+				return
+			}
+			nw, nsw := 0, 0
+			for _, s := range seq {
+				if s[0] == 's' {
+					nsw++
+				} else {
+					nw++
+				}
+			}
+			if nw == 0 || nsw < 2 && len(seq) > 2 {
+				return
+			}
+			for _, base := range []aofCfg{{Txn: true, Resume: true, Count: 2, Bytes: 1 << 20}, {Txn: false, Resume: true, Pipeline: true, Count: 64, Bytes: 1 << 20}} {
+				idx++
+				if idx%nshards != shard || budget.Expired() {
+					continue
+				}
+				cfg := base
+				cfg.DbMode = dbm
+				scn := c01Scenario{Syms: seq, Cfg: cfg, Max: 1}
+				mc.RunScenario(rep, scn, 0, budget, func(ch *mc.Chooser) mc.Result { return c01Exec(t, scn, ch) })
+			}
+		})
+	}
 	// ---- input.syncDelayTestKey configured: the stream carries the tool's own delay probe
 	enumSeqs([]string{"pr", "w1", "t2", "s1", "p"}, 2, func(seq []string) {
 		for _, cfg := range quickCfgs {
@@ -146,10 +178,10 @@ func runC01(t *testing.T, rep *mc.Reporter) {
 	// replication buffer), read through a 4 KiB and through a 1 MiB buffered reader (the size the tool's
 	// channels use), followed or preceded by other items while the batch that holds them is still pending
 	for _, rbuf := range []int{0, 1 << 20} {
-		enumSeqs([]string{"wL", "wH", "w1", "t2", "mf"}, 2, func(seq []string) {
+		enumSeqs([]string{"wL", "wH", "wM", "w1", "t2", "mf"}, 2, func(seq []string) {
 			big := false
 			for _, s := range seq {
-				if s == "wL" || s == "wH" {
+				if s == "wL" || s == "wH" || s == "wM" {
 					big = true
 				}
 			}
